@@ -51,7 +51,9 @@ def run(ctx, prog):
     f = prog.one(r'sd_jwt::validator::<impl at [^>]*>::validate_key_binding_jwt$')
     paths, ex = A.paths(f, inline=r'validate_key_binding_jwt::\{closure')
     ctx.extra['kb_paths'] = len(paths)
-    A.no_panic('key-binding/failure-is-an-error-never-a-panic', paths, replay=R('[kb-panic]'), finding_key='kb-verify-unwrap')
+    import panicmodels
+    ppaths, _ = A.paths(f, inline=r'validate_key_binding_jwt::\{closure', extra_models=panicmodels.PANIC_MODELS)
+    A.no_panic('key-binding/failure-is-an-error-never-a-panic', ppaths, replay=R('[kb-panic]'), finding_key='kb-verify-unwrap')
     okp = [p for p in paths if p.kind == 'return' and p.is_ok()]
     if not okp:
         raise Refuse('validate_key_binding_jwt has no Ok path')
@@ -143,7 +145,8 @@ def run(ctx, prog):
     okp = [p for p in paths if p.kind == 'return' and p.is_ok()]
     if not okp:
         raise Refuse('SD-JWT verify_signature has no Ok path')
-    A.no_panic('sd-jwt/verify_signature-no-panic', paths, replay=R('[cred'))
+    ppaths, _ = A.paths(f, inline=r'sd_jwt::validator::<impl at [^>]*>::verify_signature::\{closure', extra_models=panicmodels.PANIC_MODELS)
+    A.no_panic('sd-jwt/verify_signature-no-panic', ppaths, replay=R('[cred'))
     SJ = None
 
     def r_sd(p):
